@@ -157,6 +157,9 @@ def gen(rng, idx, tier):
         bl = sorted(b for b in bounds if 0 < b <= total)
         chunks = [b - a for a, b in zip([0] + bl, bl + [total]) if b > a]
         mode += "+cut_after_aa"
+    if len(chunks) > 3000:
+        chunks = chunks[:3000]            # the rest goes out in 4 KiB deliveries: bounded work per run
+        mode += "+capped"
     gaps = [rng.choice([0.0, 1e-5, 1e-3, 0.02]) for _ in range(rng.randrange(1, 6))]
     if cut_after:
         gaps = [g if g > 0 else 1e-5 for g in gaps]          # separate reads, not one merged delivery
@@ -206,6 +209,8 @@ def execute(plan):
     st = dict(o.fired)
     must = 0
     prev_clean = True
+    sent_bytes = o.conns[0]["delivered"] if o.conns else 0
+    settled = bool(o.conns) and o.end_vt >= o.conns[0].get("last_chunk_at", 0.0) + 3.0
     for kind_, hx in segs:
         b = bytes.fromhex(hx)
         if kind_ == "pkt":
@@ -215,7 +220,7 @@ def execute(plan):
             lead = stream[damage_start - 1:damage_start] if (damage_start > 0 and not prev_clean) else b""
             clean = (lead + dmg).find(b"\xaa\x55") == -1
             prev_clean = clean
-            if clean:
+            if clean and settled and off + len(b) <= sent_bytes:
                 must += 1
                 if b not in delivered:
                     v.append(viol("C20.N2", end_ev, "valid packet at offset %d (%s) was not delivered although only %s precedes it "
